@@ -122,9 +122,15 @@ type vworld struct {
 }
 
 type vworldOpts struct {
-	Split  int64    `json:"split"`           // != 0: build the root by two Merge calls over a split of the settings
-	Repeat int      `json:"repeat"`          // > 0: create + unpack the whole config this many more times (C09)
-	Names  []string `json:"names,omitempty"` // the settings to read (default: the names of Gen_VarExp's world)
+	Split  int64    `json:"split"`            // != 0: build the root by two Merge calls over a split of the settings
+	Repeat int      `json:"repeat"`           // > 0: create + unpack the whole config this many more times (C09)
+	Names  []string `json:"names,omitempty"`  // the settings to read (default: the names of Gen_VarExp's world)
+	Fields []vfield `json:"fields,omitempty"` // one Unpack into a struct with these fields (Gen_VarMixed)
+}
+
+type vfield struct {
+	N string `json:"n"`
+	T string `json:"t"` // iface | string | slice
 }
 
 func (w *vworld) build(wo vworldOpts) (*ucfg.Config, []ucfg.Option, error) {
@@ -217,6 +223,8 @@ type varObs struct {
 	Build  string                 `json:"build,omitempty"`
 	Reads  []readObs              `json:"reads"`
 	Unpack map[string]interface{} `json:"unpack"`
+	// one Unpack into a struct with several fields (wo.Fields): the canonical field values, or the error class
+	Struct map[string]interface{} `json:"struct,omitempty"`
 	// the distinct outcomes of the repeated create + Unpack (C09: there must be exactly one)
 	UnpackAll []map[string]interface{} `json:"unpack_all,omitempty"`
 	Flat      string                   `json:"flat"`
@@ -296,6 +304,29 @@ func observeWorld(w *vworld, withFlat bool, wo vworldOpts) (o varObs) {
 			add(unpackWhole(c, opts))
 		}
 	}
+	if len(wo.Fields) > 0 {
+		var sf []reflect.StructField
+		for i, f := range wo.Fields {
+			t := tIface
+			switch f.T {
+			case "string":
+				t = reflect.TypeOf("")
+			case "slice":
+				t = reflect.SliceOf(tIface)
+			}
+			sf = append(sf, reflect.StructField{Name: "F" + strconv.Itoa(i), Type: t, Tag: reflect.StructTag(`config:"` + f.N + `"`)})
+		}
+		st := reflect.New(reflect.StructOf(sf))
+		if err := c.Unpack(st.Interface(), opts...); err != nil {
+			o.Struct = map[string]interface{}{"err": varErrClass(err)}
+		} else {
+			vals := make([]interface{}, len(sf))
+			for i := range sf {
+				vals[i] = canonGo(st.Elem().Field(i).Interface())
+			}
+			o.Struct = map[string]interface{}{"ok": vals}
+		}
+	}
 	if withFlat {
 		c.FlattenedKeys(opts...)
 		diff.CompareConfigs(c, c, opts...)
@@ -307,7 +338,13 @@ func observeWorld(w *vworld, withFlat bool, wo vworldOpts) (o varObs) {
 type varReq struct {
 	W    *vworld `json:"w"`
 	Flat bool    `json:"flat"`
+	Rec  bool    `json:"rec"` // only: Unpack of n into a recursive struct type
 	vworldOpts
+}
+
+// recT: a recursive target type for the setting n = {k: ...}
+type recT struct {
+	K *recT `config:"k"`
 }
 
 func varChild(req []byte) interface{} {
@@ -316,6 +353,17 @@ func varChild(req []byte) interface{} {
 		return map[string]string{"build": "bad request: " + err.Error()}
 	}
 	var o varObs
+	if r.Rec {
+		c, opts, err := r.W.build(r.vworldOpts)
+		if err != nil {
+			return varObs{Build: err.Error()}
+		}
+		var t struct {
+			N recT `config:"n"`
+		}
+		c.Unpack(&t, opts...) // must RETURN; what it returns is compared by the other reads
+		return varObs{Extra: "rec-returned"}
+	}
 	panicked, msg := guard(func() { o = observeWorld(r.W, r.Flat, r.vworldOpts) })
 	if panicked {
 		return varObs{Build: "panic: " + msg}
@@ -338,8 +386,12 @@ type varCase struct {
 		Typed expBlock `json:"typed"`
 		Has   expBlock `json:"has"`
 	} `json:"reads"`
-	Unpack expBlock `json:"unpack"`
-	Flat   expBlock `json:"flat"`
+	Unpack    expBlock  `json:"unpack"`
+	Flat      expBlock  `json:"flat"`
+	Fields    []vfield  `json:"fields"`
+	Struct    *expBlock `json:"struct"`
+	NodeCycle bool      `json:"nodecycle"`
+	Rec       *expBlock `json:"rec"`
 }
 
 func eqText(got map[string]interface{}) func(json.RawMessage) bool {
@@ -484,11 +536,11 @@ func varReplay(args []string) int {
 			}
 			split = ((h ^ *seed) & 0x1ff) | 0x200
 		}
-		req, _ := json.Marshal(map[string]interface{}{"w": c.W, "flat": oneShot, "split": split, "repeat": *repeat, "names": names})
+		req, _ := json.Marshal(map[string]interface{}{"w": c.W, "flat": oneShot, "split": split, "repeat": *repeat, "names": names, "fields": c.Fields})
 		resp, status := pool.do(req)
 		flatStatus := status
 		if status != "ok" && oneShot {
-			req, _ = json.Marshal(map[string]interface{}{"w": c.W, "flat": false, "split": split, "repeat": *repeat, "names": names})
+			req, _ = json.Marshal(map[string]interface{}{"w": c.W, "flat": false, "split": split, "repeat": *repeat, "names": names, "fields": c.Fields})
 			resp, status = pool.do(req)
 		}
 		if status != "ok" {
@@ -559,6 +611,54 @@ func varReplay(args []string) int {
 				return map[string]interface{}{"Unpack": "whole config", "got": o.Unpack}
 			}, "unpack")
 		}
+		if c.Struct != nil && !c.Amb {
+			eqStruct := func(exp json.RawMessage) bool {
+				var e struct {
+					Ok []struct {
+						Ok *obs `json:"ok"`
+					} `json:"ok"`
+					Err  string   `json:"err"`
+					Errs []string `json:"errs"`
+				}
+				if json.Unmarshal(exp, &e) != nil {
+					return false
+				}
+				if e.Err != "" {
+					g, isErr := o.Struct["err"].(string)
+					if !isErr {
+						return false
+					}
+					for _, x := range e.Errs {
+						if x == g || x == "any" {
+							return true
+						}
+					}
+					return false
+				}
+				vals, isOk := o.Struct["ok"].([]interface{})
+				if !isOk || len(vals) != len(e.Ok) {
+					return false
+				}
+				for i, w := range e.Ok {
+					var want interface{}
+					if w.Ok != nil {
+						want = w.Ok.canon()
+					}
+					if c.Fields[i].T == "slice" && want != nil {
+						if _, isList := want.([]interface{}); !isList {
+							want = []interface{}{want} // a single value unpacks into a slice of one
+						}
+					}
+					if !reflect.DeepEqual(stripTypes(vals[i]), stripTypes(want)) {
+						return false
+					}
+				}
+				return true
+			}
+			rep.classify(raw, c.Struct.Ideal, c.Struct.Alts, eqStruct, func() interface{} {
+				return map[string]interface{}{"Unpack": "struct with several fields", "fields": c.Fields, "got": o.Struct}
+			}, "struct")
+		}
 		// C09: create + Unpack is a function of its arguments (also in ambiguous worlds: whatever
 		// ${x:+y} on an active name means, it means the same every time)
 		if len(o.UnpackAll) > 1 {
@@ -566,6 +666,20 @@ func varReplay(args []string) int {
 				"the outcome of Unpack depends on the order in which the runtime enumerates the settings")
 		} else if *repeat > 0 {
 			rep.class("unpack-repeated-one-outcome")
+		}
+		// Unpack of n into a recursive struct type, where n.k leads back to n: in its own child request
+		if c.Rec != nil && c.NodeCycle {
+			req, _ := json.Marshal(map[string]interface{}{"w": c.W, "rec": true, "split": split})
+			_, st := pool.do(req)
+			rec := "returns"
+			if st != "ok" {
+				rec = "overflow"
+				rep.class("recursive-target-" + st)
+			}
+			rep.classify(raw, c.Rec.Ideal, c.Rec.Alts, func(exp json.RawMessage) bool {
+				var s string
+				return json.Unmarshal(exp, &s) == nil && s == rec
+			}, func() interface{} { return map[string]string{"Unpack of n into a recursive struct type": rec} }, "recursive-target")
 		}
 		// FlattenedKeys + CompareConfigs
 		if !oneShot {
